@@ -85,7 +85,7 @@ class Worker(object):
 
 
 def load_known():
-    path = os.path.join(VERIF, "known_findings.json")
+    path = os.environ.get("SIMKIT_KNOWN_FINDINGS") or os.path.join(VERIF, "known_findings.json")   # override: self-test only
     if not os.path.exists(path):
         return []
     with open(path) as f:
@@ -228,9 +228,9 @@ def do_check(a, prop, spec, tier, S, wargs, errdir):
                 if not q:
                     return
                 r = q.popleft()
-                no_min = sum(nmin.values()) >= 6
+                skip = [o for o, c in nmin.items() if c >= 3]     # at most 3 minimisations per oracle
             want = r < a.first + 3
-            out = w.request({"cmd": "run", "r": r, "want_ops": want, "no_min": no_min})
+            out = w.request({"cmd": "run", "r": r, "want_ops": want, "no_min_oracles": skip})
             with lock:
                 if out is None:
                     incomplete.append((r, w.wid, w.errtail(40)))
